@@ -14,6 +14,7 @@ structure S where
   tree : RedBlack.Tree Int := .nil
   stack : Stack.Stack Int := Stack.create
   stype : String := "i"
+  cond : Bool := false         -- the stack has an active condition variable: Pop on an empty stack would wait (bad-op)
   dead : Bool := false         -- a fault was reported: every later op of the case answers `fault` too
 
 def fnv (h : UInt64) (x : UInt64) : UInt64 := (h ^^^ x) * (0x100000001b3 : UInt64)
@@ -179,13 +180,17 @@ def step (s : S) (line : String) : S × String :=
       let desc := RedBlack.Tree.toLinkedDesc t []
       ({ s with tree := .nil }, "ok desc=" ++ showInts desc ++ " asc=" ++ showInts desc.reverse)
   -- ---------------- stacks
-  | "st_new" :: _ => ({ s with stack := Stack.create, stype := (arg? ws "t").getD "i" }, "ok")
+  | "st_new" :: _ =>
+    -- `mutex=1` / `cond=1` (esl_stack_UseMutex / UseCond) do not change the sequential behaviour
+    ({ s with stack := Stack.create, stype := (arg? ws "t").getD "i", cond := (argNat? ws "cond").getD 0 == 1 }, "ok")
+  | "st_release" :: _ => if s.cond then ({ s with cond := false }, "ok") else (s, "esys")
   | "push" :: _ =>
     let vs := parseInts ((arg? ws "v").getD "-")
     match Stack.pushAll s.stack vs with
     | some st => ({ s with stack := st }, s!"ok {st.data.size}")
     | none => fault s
   | "pop" :: _ =>
+    if s.cond && s.stack.data.size == 0 then (s, "bad-op") else
     match Stack.pop s.stack with
     | (st, some x) => ({ s with stack := st }, s!"ok {x}")
     | (st, none) => ({ s with stack := st }, "eod 0")
@@ -212,7 +217,7 @@ def step (s : S) (line : String) : S × String :=
     | none => (s, "bad-op")
   | "tostring" :: _ =>
     let bytes := s.stack.data.toList.map (fun x => UInt8.ofNat (x % 256).toNat)
-    ({ s with stack := Stack.create }, "ok " ++ hexOrDash (Stack.convert2String { data := bytes.toArray, nalloc := s.stack.nalloc }))
+    ({ s with stack := Stack.create, cond := false }, "ok " ++ hexOrDash (Stack.convert2String { data := bytes.toArray, nalloc := s.stack.nalloc }))
   -- ---------------- quicksort
   | "qsort" :: _ =>
     let data := (parseInts ((arg? ws "data").getD "-")).toArray
